@@ -103,12 +103,12 @@ theorem C06_init_increments_once (vs : List Val) (i : Int) :
     | nil => simp [applyInit]
     | cons w ws => simp only [List.cons_append] at ih ⊢; simp [applyInit, ih]
 
-/-- every derived item in the plain fragment round-trips (C01 applies to it) -/
+/-- every derived item whose keyed collections have key types round-trips (C01 applies to it) -/
 theorem C06_roundtrip_partial (st : Bool) (k : ProdK) (fs : List Field) (v : Val) (bs : Bytes)
-    (hp : plainFields fs = true) (hw : WfFields fs = true) (hv : HasTy (.prod k fs) v = true)
+    (hp : keysOkFields fs = true) (hw : WfFields fs = true) (hv : HasTy (.prod k fs) v = true)
     (he : toVec (.prod k fs) v = .ok bs) :
     fromSlice st (.prod k fs) bs = .ok (canon (.prod k fs) v) :=
-  C01_roundtrip_partial (.prod k fs) (by simpa [plain] using hp) (by simpa [WfTy] using hw) st v bs hv he
+  C01_roundtrip_partial (.prod k fs) (by simpa [keysOk] using hp) (by simpa [WfTy] using hw) st v bs hv he
 
 /-- non-vacuity: an enum with a discriminant following an implicit one -/
 example :
